@@ -148,6 +148,11 @@ pub fn new_iset(probe: &ProbeLog) -> InstructionSet {
             p.ticks.lock().unwrap().push(json!({"cur": cur, "has": has, "int": top}));
         }),
     );
+    // a custom instruction whose name is longer than every built-in name (README: the set can be extended by `add`)
+    iset.add(
+        "VERIF.NOOP*WITH*A*NAME*LONGER*THAN*ANY*BUILTIN*INSTRUCTION".to_string(),
+        Instruction::new(|_st: &mut PushState, _c: &InstructionCache| {}),
+    );
     let p2 = probe.clone();
     iset.add(
         "VERIF.SLEEP".to_string(),
